@@ -75,6 +75,7 @@ def _check(repo: Repo, rep, tier):
     star_freeze(repo, rep)
     freeze_emits_nothing(repo, rep)
     leaf_only_update(repo, rep)
+    update_walk_total(repo, rep)
     reeval_refresh(repo, rep)
     items_total(repo, rep)
 
@@ -954,6 +955,51 @@ def leaf_only_update(repo: Repo, rep):
             rep.ok("R-LEAF-ONLY-UPDATE", s.func, s.call, "Replace only for values without items()")
         else:
             rep.violation("R-LEAF-ONLY-UPDATE", s.func, s.call, f"{s.func.qualname} can replace a whole container (a value whose adapter has items()): a never-compared `snapshot([0 + 1, *rest()])` is rewritten to its literal value by update, star-expression included", construct="container-replace")
+
+
+def update_walk_total(repo: Repo, rep):
+    rep.rule(
+        "R-UPDATE-WALK-TOTAL",
+        "the walk of UndecidedValue._get_changes over a never-compared snapshot visits every element: a part the user controls (Is(..), an f-string, an "
+        "element without a node) is *skipped*, it does not end the walk - no `return` and no `break` inside a loop of the walk (recursive form: the "
+        "`return` behind the loop over the items; work-list form: `continue`).  Otherwise everything behind the first user-controlled part keeps its "
+        "non-canonical text under update, and what is rewritten depends on the position of that part",
+    )
+    c = repo.cls("UndecidedValue", "_snapshot/undecided_value.py")
+    top = c.methods.get("_get_changes")
+    if top is None:
+        rep.undecided("R-UPDATE-WALK-TOTAL", "UndecidedValue._get_changes not found")
+        return
+    fns = [top] + [g for g in c.module.funcs.values() if g.qualname.startswith(top.qualname + ".")]
+    n = 0
+    for g in fns:
+        for lp in [x for x in body_nodes(g.node) if isinstance(x, (ast.For, ast.While))]:
+            n += 1
+            leaves = []
+            todo = list(lp.body)
+            while todo:
+                x = todo.pop()
+                if isinstance(x, (ast.FunctionDef, ast.AsyncFunctionDef, ast.ClassDef, ast.Lambda)):
+                    continue
+                if isinstance(x, (ast.Return, ast.Break)):
+                    leaves.append(x)
+                    continue
+                if isinstance(x, (ast.For, ast.While)):
+                    leaves += [y for y in ast.walk(x) if isinstance(y, ast.Return)]
+                    continue
+                todo.extend(ast.iter_child_nodes(x))
+            if leaves:
+                rep.violation(
+                    "R-UPDATE-WALK-TOTAL",
+                    g,
+                    leaves[0],
+                    f"{g.qualname} ends its walk over the elements at `{short(leaves[0], 30)}` inside the loop `{short(lp, 40)}`: the elements behind the first one that takes this path are never looked at - "
+                    "with `--inline-snapshot=update` a never-compared `snapshot([Is(x), 1 + 1])` keeps `1 + 1`, while `snapshot([1 + 1, Is(x)])` is normalised",
+                    construct=f"{g.qualname}:walk-left-early",
+                )
+            else:
+                rep.ok("R-UPDATE-WALK-TOTAL", g, lp, "the loop visits every element")
+    rep.floor("R-UPDATE-WALK-TOTAL", "loops of the never-compared walk", n, 1)
 
 
 def zip_lockstep(repo: Repo, rep):
